@@ -168,6 +168,7 @@ def solver_table(repo):
             refuses_sparse=("issparse(X)" in csrc and "raise ValueError" in csrc and "support_sparse" not in csrc),
             checks_sparse_suffix=("support_sparse" in csrc),
             requires_groups=("check_group_compatible" in csrc),
+            refuses_group_datafit=("hasattr(datafit, 'grp_ptr')" in csrc and "raise ValueError" in csrc and "check_group_compatible" not in csrc),
             requires_no_datafit=("datafit is not None" in csrc),
             checks_subdiff=("subdiff_distance" in csrc),
             src=rel)
@@ -236,7 +237,8 @@ def main(repo, outdir):
              "Record cls := { c_name : string; c_methods : list string; c_attrs : list string; c_uses : list string }.",
              "Record call := { k_obj : string; k_attr : string; k_tags : list string }.",
              "Record solver := { s_name : string; s_req_datafit : list string; s_req_penalty : list string; s_calls : list call;",
-             "  s_refuses_sparse : bool; s_checks_sparse_suffix : bool; s_requires_groups : bool; s_requires_no_datafit : bool; s_checks_subdiff : bool }.", ""]
+             "  s_refuses_sparse : bool; s_checks_sparse_suffix : bool; s_requires_groups : bool; s_requires_no_datafit : bool; s_checks_subdiff : bool;",
+             "  s_refuses_group_datafit : bool }.", ""]
 
     def cls(name, c):
         return "{| c_name := %s; c_methods := %s; c_attrs := %s; c_uses := %s |}" % (coq_str(name), coq_list([coq_str(m) for m in c["methods"]]), coq_list([coq_str(a) for a in c["attrs"]]), coq_list([coq_str(a) for a in c["uses"]]))
@@ -248,9 +250,9 @@ def main(repo, outdir):
     sl = []
     for k, v in sol.items():
         calls = coq_list(["{| k_obj := %s; k_attr := %s; k_tags := %s |}" % (coq_str(c["obj"]), coq_str(c["attr"]), coq_list([coq_str(t) for t in c["tags"] if not t.startswith("guarded:")] + ([coq_str("guarded")] if any(t.startswith("guarded:") for t in c["tags"]) else []))) for c in v["calls"]])
-        sl.append("\n  {| s_name := %s; s_req_datafit := %s; s_req_penalty := %s; s_calls := %s;\n     s_refuses_sparse := %s; s_checks_sparse_suffix := %s; s_requires_groups := %s; s_requires_no_datafit := %s; s_checks_subdiff := %s |}" % (
+        sl.append("\n  {| s_name := %s; s_req_datafit := %s; s_req_penalty := %s; s_calls := %s;\n     s_refuses_sparse := %s; s_checks_sparse_suffix := %s; s_requires_groups := %s; s_requires_no_datafit := %s; s_checks_subdiff := %s;\n     s_refuses_group_datafit := %s |}" % (
             coq_str(k), coq_list([coq_str(x) for x in v["req_datafit"]]), coq_list([coq_str(x) for x in v["req_penalty"]]), calls,
-            b(v["refuses_sparse"]), b(v["checks_sparse_suffix"]), b(v["requires_groups"]), b(v["requires_no_datafit"]), b(v["checks_subdiff"])))
+            b(v["refuses_sparse"]), b(v["checks_sparse_suffix"]), b(v["requires_groups"]), b(v["requires_no_datafit"]), b(v["checks_subdiff"]), b(v["refuses_group_datafit"])))
     lines.append("Definition solvers : list solver := " + coq_list(sl) + ".")
     sp = solve_proxy(repo)
     tables["solve_proxy"] = sp
